@@ -6,7 +6,7 @@ PID = "C04"
 
 
 def scenarios(rng, tier):
-    sc = T.fam_reorg(rng) + T.fam_completion(rng) + T.fam_midreorg(rng)
+    sc = T.fam_reorg(rng) + T.fam_completion(rng) + T.fam_midreorg(rng) + T.fam_reorg_multi(rng)
     sc += T.fam_random(rng, 10 if tier == "quick" else 120)
     if tier == "thorough":
         sc += T.fam_reorg(rng, deep=True)
